@@ -83,6 +83,24 @@ CLAIMS['C20'] = dict(
         'set_state_from_checkpoint run against harness/h5stub.py (numpy-backed) and are compared with the model byte for byte.',
    design='3/C20', note=TB + '; h5py is not installable here: fidelity of harness/h5stub.py to h5py/HDF5 (S1 storage, resize) is assumed; CPython pickle trusted')
 
+CLAIMS['C10'] = dict(
+   technique='Lean 4 proof (well-formedness invariant by induction over all operation sequences) + scripted correspondence + direct search',
+   text='Over EpsieModel/Transdim.lean: C10_jump_wf (WF x -> jump = ok y -> WF y incl. the proposed _state), C10_jump_wf_total, '
+        'C10_choice_feasible / C10_choice_infeasible_beyond_K (kmax <= K is needed only for never-raises; the constructor does not check it), '
+        'C10_reachable_wf (every record, start, current position with _active_props, proposed point and checkpoint, through starts, steps, '
+        'sweeps with arbitrary swap_index, clears, saves, loads; no length bound), C10_reachable_step_total, C10_update_rule. Real '
+        'NestedTransdimensional.jump / Chain.step with scripted draws are compared with the model; WF is asserted on every record, proposed '
+        'point and _active_props of real MH/PT runs.',
+   design='3/C10', note=TB + '; hypotheses the code does not check (0 <= kmin, kmax <= K, well-formed start values) are explicit; numpy choice(replace=False) trusted')
+CLAIMS['C11'] = dict(
+   technique='Lean 4 proof (binomial identity, ratio algebra, detailed balance/stationarity on finite spaces; Mathlib single modules) + scripted correspondence + exact pairwise detailed-balance search',
+   text='C11_choose_identity, C11_ways_balance, C11_code_ratio (reported ratio = true ratio x C(x)/C(x\')), C11_hastings_applied / '
+        'C11_hastings_skipped_when_symmetric, C11_acceptance, C11_reversible, C11_reversible_forced_reject, C11_stationary, C11_index_marginal. '
+        'The search checks (f/C)(x) q(x\'|x) a(x,x\') = (f/C)(x\') q(x|x\') a(x\',x) on the real code for sampled pairs of every move type with q_true '
+        'computed without any logpdf of the repo (index law by bisection on the real jump, births/in-model draws from the draw-site arguments, '
+        '1/C by counting).',
+   design='3/C11', note=TB + '; uniformity of numpy choice over subsets and the named numpy distributions trusted')
+
 NOT_YET = {}
 
 def main():
